@@ -4,6 +4,7 @@ import Brc20.Model.DriverP
 import Brc20.Model.DriverF
 import Brc20.Model.DriverE
 import Brc20.Model.DriverA
+import Brc20.Model.DriverK
 
 open Brc20
 
@@ -34,6 +35,13 @@ partial def loopE (h : IO.FS.Stream) (out : IO.FS.Stream) (n : Node) : IO Unit :
   out.putStrLn o
   loopE h out n'
 
+partial def loopK (h : IO.FS.Stream) (out : IO.FS.Stream) (c : Ledger.Ctl) : IO Unit := do
+  let line ← h.getLine
+  if line.isEmpty then return ()
+  let (c', o) := DriverK.step c line
+  out.putStrLn o
+  loopK h out c'
+
 def main (args : List String) : IO UInt32 := do
   let stdin ← IO.getStdin
   let stdout ← IO.getStdout
@@ -42,6 +50,7 @@ def main (args : List String) : IO UInt32 := do
   | ["C"] => loopStateless stdin stdout DriverC.step; return 0
   | ["A"] => loopStateless stdin stdout DriverA.step; return 0
   | ["E"] => loopE stdin stdout {}; return 0
+  | ["K"] => loopK stdin stdout DriverK.init; return 0
   | ["F"] => loopF stdin stdout .missing; return 0
   | ["P"] => loopStateless stdin stdout DriverP.step; return 0
   | _ => IO.eprintln "usage: brc20model <suite>"; return 2
